@@ -100,7 +100,7 @@ theorem naiveFrom_skip (attempt : Nat → Option (Nat × Nat)) (rtl : Bool) (n :
 /-! ### the accelerated scan loop equals the naive scan -/
 
 theorem tooShort_all_fail (rtl : Bool) (n L pos : Nat) (attempt : Nat → Option (Nat × Nat))
-    (hS : AttemptShape rtl n attempt) (hM : MinLenSound n L attempt) (hpos : pos ≤ n)
+    (hS : AttemptShape rtl n attempt) (hM : MinLenSound rtl n L attempt) (hpos : pos ≤ n)
     (h : tooShort rtl n L pos = true) : ∀ p, p ∈ scanOrder rtl n pos → attempt p = none := by
   intro p hp
   rw [mem_scanOrder] at hp
@@ -112,14 +112,14 @@ theorem tooShort_all_fail (rtl : Bool) (n L pos : Nat) (attempt : Nat → Option
     have hpn : p ≤ n := by cases rtl <;> simp at hp <;> omega
     have h1 := hS p i l hpn hA
     have h2 := hM p i l hpn hA
-    cases rtl <;> simp [tooShort] at h h1 hp <;> omega
+    cases rtl <;> simp [tooShort] at h h1 h2 hp <;> omega
 
 /-- The loop of `Runner.scan` started at `pos` finds exactly the first successful attempt at or after
     `pos` in scan order, provided the fuel covers the positions ahead. -/
 theorem scanLoop_eq_naiveFrom (finder : Nat → Bool × Nat) (after : Nat → Nat) (attempt : Nat → Option (Nat × Nat))
     (rtl : Bool) (n L : Nat)
     (hS : AttemptShape rtl n attempt) (hF : FinderSound rtl n finder attempt)
-    (hA : AfterSound rtl n after attempt) (hM : MinLenSound n L attempt) :
+    (hA : AfterSound rtl n after attempt) (hM : MinLenSound rtl n L attempt) :
     ∀ (fuel pos : Nat), pos ≤ n → dist rtl n pos < fuel →
       scanLoop finder after attempt rtl n L fuel pos = naiveFrom attempt rtl n pos := by
   intro fuel
@@ -217,7 +217,7 @@ theorem scanLoop_eq_naiveFrom (finder : Nat → Bool × Nat) (after : Nat → Na
 theorem scan_eq_naive (finder : Nat → Bool × Nat) (after : Nat → Nat) (attempt : Nat → Option (Nat × Nat))
     (rtl : Bool) (n L : Nat)
     (hS : AttemptShape rtl n attempt) (hF : FinderSound rtl n finder attempt)
-    (hA : AfterSound rtl n after attempt) (hM : MinLenSound n L attempt)
+    (hA : AfterSound rtl n after attempt) (hM : MinLenSound rtl n L attempt)
     (start : Nat) (prevLen : Int) (hstart : start ≤ n) :
     scan finder after attempt start prevLen rtl n L = (naive attempt start prevLen rtl n).map (Hit.ofSpan rtl) := by
   have key := scanLoop_eq_naiveFrom finder after attempt rtl n L hS hF hA hM (n + 1)
